@@ -123,7 +123,7 @@ func onlyRead(v ssa.Value) bool {
 }
 
 func allocName(a *ssa.Alloc) string {
-	c := a.Comment
+	c := identName(a)
 	if c == "" {
 		c = "tmp"
 	}
@@ -143,9 +143,9 @@ func desc(v ssa.Value, depth int) string {
 		if a, ok := paramSubst[x]; ok && a != x {
 			return desc(a, depth)
 		}
-		return x.Name()
+		return identName(x)
 	case *ssa.FreeVar:
-		return "free:" + x.Name()
+		return "free:" + identName(x)
 	case *ssa.Const:
 		if x.IsNil() {
 			return "nil"
@@ -220,7 +220,7 @@ func desc(v ssa.Value, depth int) string {
 				return desc(v, d)
 			}
 		}
-		c := x.Comment
+		c := identName(x)
 		if c == "" {
 			c = "?"
 		}
